@@ -1905,10 +1905,12 @@ func (app *App) repairCascadeNode(node *mysql.Node, clusterState map[string]*nod
 	cnc := cascadeTopology[host]
 
 	if state.SlaveState == nil {
-		app.logger.Warn().Msgf("repair: current Slave/Replica Status is unknown. Blindly change master on %s to '%s'", host, cnc.StreamFrom)
-		err := app.performChangeMaster(host, cnc.StreamFrom)
+		// the configured stream_from may be empty, unregistered or the host itself: resolve it the usual way
+		streamFrom := app.findBestStreamFrom(node, clusterState, master, cascadeTopology)
+		app.logger.Warn().Msgf("repair: current Slave/Replica Status is unknown. Blindly change master on %s to '%s'", host, streamFrom)
+		err := app.performChangeMaster(host, streamFrom)
 		if err != nil {
-			app.logger.Warn().Msgf("repair: failed to change master on host %s to new value %s", host, cnc.StreamFrom)
+			app.logger.Warn().Msgf("repair: failed to change master on host %s to new value %s", host, streamFrom)
 			return
 		}
 		err = node.StartSlave()
